@@ -421,3 +421,70 @@ GROUP_INSTANCES = ['group_typecasts', 'group_tzcasts', 'group_typed_literal', 'g
                    'group_comparison', 'group_arrays', 'group_operator', 'group_identifier_list']
 for _n in GROUP_INSTANCES:
     _pass_contract(_n, case='closures')
+
+
+# --------------------------------------------------------------------------------- _is_delimiter (C09)
+
+def _make_tlist_of(clsname):
+    def mk(ex, st):
+        g = make_group(ex, st, 'tlist')
+        st.assume(st.objs[g.oid]['CLS'] == ex.W.cls_const[getattr(ex.W.sql, clsname)])
+        return g
+    return mk
+
+
+def _make_any_child_or_token(ex, st):
+    """any token object: a leaf or a group, with arbitrary type and text"""
+    W = ex.W
+    tt = fresh('tok_tt', W.TT)
+    isg = fresh('tok_isg', z3.BoolSort())
+    st.assume(isg == (tt == W.tt_none))
+    val = fresh('tok_val', z3.StringSort())
+    norm = fresh('tok_norm', z3.StringSort())
+    return ex.new_token(st, {'CLS': fresh('tok_cls', W.CLS), 'value': SStr(val), 'TXT': SStr(val), 'is_group': SBool(isg),
+                             'ttype': STy(tt), 'parent': Opaque('some-parent'),
+                             'is_whitespace': SBool(ex._b(ex.contains(STy(tt), W.T.Whitespace, st))),
+                             'is_keyword': SBool(ex._b(ex.contains(STy(tt), W.T.Keyword, st))),
+                             'is_newline': False, 'normalized': SStr(norm)})
+
+
+DELIMITER_CASES = []
+for _n in ('Parenthesis', 'SquareBrackets', 'Case', 'If', 'For', 'Begin'):
+    _ns = {'__doc__': 'C09 "each such node starts with its opening token and, ignoring comments attached after it, ends '
+                      'with its closing token": inside a %s every leaf that matches the class\'s closing pattern (wherever it '
+                      'stands among the children - comments may follow it) and the first child are delimiters, which the '
+                      'joining passes must leave in place; a group child never is' % _n,
+           'exec_class': HeapExec, 'params': {'tlist': _make_tlist_of(_n), 'token': _make_any_child_or_token},
+           'requires': [],
+           'ensures': ['result == True if (not token.is_group and token.match(*tlist.M_CLOSE)) else True',
+                       'result == False if token.is_group else True',
+                       'result == False if (not token.is_group and not token.match(*tlist.M_CLOSE) '
+                       'and token is not tlist.tokens[0]) else True'],
+           'raises': [], 'serves': ['C09']}
+    REG.add('sqlparse.engine.grouping._is_delimiter', _n, type('is_delimiter_' + _n, (), _ns))
+    DELIMITER_CASES.append(('sqlparse.engine.grouping._is_delimiter', _n))
+
+
+class is_delimiter_first:
+    """the first child of a bracket / block group (its opening token) is a delimiter"""
+    exec_class = HeapExec
+    params = {'tlist': make_bracket_group, 'token': lambda ex, st: _first_leaf_child(ex, st)}
+    requires = []
+    ensures = ['result == True']
+    raises = []
+    serves = ['C09']
+
+
+def _first_leaf_child(ex, st):
+    tl = st.env['tlist']
+    lst = ex.getattr(tl, 'tokens', st)
+    r = ex.elem_at(st, lst, z3.IntVal(0))
+    assert len(r) == 1
+    e = r[0][1]
+    isg = st.objs[e.oid]['is_group']
+    st.assume(z3.Not(ex.z_bool(isg)) if hasattr(ex, 'z_bool') else z3.Not(isg.z))
+    return e
+
+
+REG.add('sqlparse.engine.grouping._is_delimiter', 'first child', is_delimiter_first)
+DELIMITER_CASES.append(('sqlparse.engine.grouping._is_delimiter', 'first child'))
